@@ -35,6 +35,11 @@ SCENARIOS = [
     # leading blanks belong to the pattern (git does not strip them); a nested file of negations only is a rule file
     {".gitignore": "    api-x.md\n\tt.md\n  !keep.md\nkeep.md\ngen/\n", "api-x.md": "a", "t.md": "t", "keep.md": "k", "    api-x.md": "odd",
      "gen/.gitignore": "!*.md\n", "gen/g.md": "g", "sub/.gitignore": "!keep.md\n", "sub/keep.md": "k2", "sub/api-x.md": "s"},
+    # a rule repeated around a negation (every line counts, in file order); backslash escapes of #, !, [ and ?
+    {".gitignore": "scratch*.md\n!scratch-keep.md\nscratch*.md\nout/\n!docs/out/\nout/\n", "scratch1.md": "1", "scratch-keep.md": "k", "docs/out/o.md": "o",
+     "out/p.md": "p", "docs/d.md": "d"},
+    {".gitignore": "\\#hash.md\n\\!bang.md\nnotes\\[1\\].md\nfile\\?.md\n", "#hash.md": "h", "!bang.md": "b", "notes[1].md": "n", "notes1.md": "n1",
+     "file?.md": "q", "filex.md": "x", "sub/#hash.md": "sh"},
 ]
 
 
@@ -124,7 +129,7 @@ def bounded(tier, seed):
         finally:
             shutil.rmtree(base, ignore_errors=True)
     return {"evaluations": evals, "distinct_nontrivial": len(distinct), "violations": viol, "samples": samples,
-            "rule": "(also, on the scenarios and every 10th tree: `--list-files` through cli.main started inside the tree, in its parent (no repository) and in / gives the same listing; after the .gitignore files are replaced a NEW resolver in the same process agrees with git again) 13 hand-written scenarios (incl. comment / '#' / escape / leading-blank handling of ignore lines, negation-only nested files) (ignored directories with later / nested negations, anchored and multi-segment patterns in "
+            "rule": "(also, on the scenarios and every 10th tree: `--list-files` through cli.main started inside the tree, in its parent (no repository) and in / gives the same listing; after the .gitignore files are replaced a NEW resolver in the same process agrees with git again) 15 hand-written scenarios (incl. comment / '#' / escape / leading-blank handling of ignore lines, negation-only nested files, rules repeated around a negation, backslash escapes) (ignored directories with later / nested negations, anchored and multi-segment patterns in "
                     "nested files, re-included directories) + seeded trees with .gitignore files (1-3 lines each from an 18-line pool) at any level: the .md files returned by a "
                     "traversal (no default excludes) equal the .md files of `git ls-files -co --exclude-standard`; the same for two overlapping traversal roots (tree and one sub-directory, both orders: each judged from its own root); with "
                     "respect_gitignore=False every .md file is returned; distinct = distinct git results",
